@@ -29,7 +29,8 @@ RULE = (
     "case = generated module (placement blocks in generated order with generated constants: module-level "
     "function, method of a nested class, method, function inside a function, function two functions deep, "
     "decorated function, a method and a nested function sharing their bare names with module-level functions, a "
-    "closure referring to itself, a closure whose only instance is created by the history) x history (<=15 quick / <=40 thorough ops) of {activate probe by name | by reference, "
+    "closure referring to itself, closures whose only instance is created by the history (factory at module "
+    "level / a method / itself a closure), a function under two stacked decorators) x history (<=15 quick / <=40 thorough ops) of {activate probe by name | by reference, "
     "activate a path probe in which the target is only the enclosing call, deactivate innermost, call, resolve "
     "reference, create the lazy closure instance} x codefind lookup regime (gc scan / cache). evaluations = "
     "operations applied. Non-trivial = a resolve or an activation by reference happens while >=1 other probe on "
